@@ -61,6 +61,22 @@ def run(chk, ctx) -> None:
     ms = ctx.state.methods
     eff = ctx.eff
     disc = discovered(ctx)
+    # a legal operation never fails part-way: the chips an operation (or the constructor's automated forced bets) takes from a
+    # stack are bounded by that stack - the `assert stack >= amount` beliefs hold (same inference as C01.bounds)
+    from .c01 import _bounds
+    from .helpers import Refile
+    _bounds(Refile(chk, {'C01.bounds': 'C07.no_overdraw'}), ctx)
+    chk.floor('C07.no_overdraw', 5)
+    # while a phase is pending one of its operations is available: a per-player step is refused only for players whose flag
+    # is not set (the phase ends exactly when no flag is left), and with an actor either the bring-in or a check/call is
+    # possible (fold / check-call refuse exactly on "no actor" and "bring-in pending", the bring-in exactly on the converse)
+    from .cover import flag_verifiers
+    flag_verifiers(Refile(chk, {'C08.flag_verifiers': 'C07.available'}), ctx)
+    from . import c03 as _c03
+    re3 = Refile(chk, {'C03.S8': 'C07.available'})
+    _c03._simple_verifiers(re3, ctx)
+    _c03._fold(re3, ctx)
+    chk.floor('C07.available', 8)
     # ------------------------------------------------------------------ graph
     for fn, targets in GRAPH.items():
         if fn not in ms:
